@@ -102,6 +102,10 @@ class Ctx:
     def run_vh(self, driver, args, binary=None, timeout=3000, env=None):
         """runs a harness driver, merges its result into coverage, returns the result dict"""
         binary = binary or self.build()
+        if driver == "alg" and "-firstuse" not in [str(a) for a in args]:
+            # successive alg runs of one check start the process with a different first use of the group constants
+            self._firstuse = getattr(self, "_firstuse", self.seed) + 1
+            args = list(args) + ["-firstuse", self._firstuse % 4]
         out = os.path.join(self.tmp, "res-%s-%d.json" % (driver, len(self.cov["tlc_runs"]) * 100 + len(self.violations) + int(time.time() * 1000) % 100000))
         cmd = [binary, driver, "-prop", self.prop, "-seed", str(self.seed), "-tier", self.tier, "-out", out] + [str(a) for a in args]
         t = time.time()
